@@ -137,6 +137,22 @@ class Loops:
             v = self.eval_text(inv, fr)
             self.st.prove(f"{qn}/loop{ordn}:{phase}:{label}", self.bm.truth(v), kind=phase)
 
+    def _check_step(self, lc, fr, qn, ordn, pre):
+        from .exec import UNBOUND
+        added = []
+        for k, v in pre.items():
+            nm = "pre_" + k
+            if nm not in fr.env and v is not UNBOUND:
+                fr.env[nm] = v
+                added.append(nm)
+        try:
+            for label, text in lc.step:
+                v = self.eval_text(text, fr)
+                self.st.prove(f"{qn}/loop{ordn}:step:{label}", self.bm.truth(v), kind="loop-step", assume_after=False)
+        finally:
+            for nm in added:
+                fr.env.pop(nm, None)
+
     def _assume_invs(self, lc, fr):
         rest = []
         for label, inv in lc.invariants():  # pass 1: `x == E` / `self.a == E` define the havoced location
@@ -241,6 +257,7 @@ class Loops:
             self.st.labels.append(f"loop{ordn}:iteration")
             self.st.assume(c)
             m0 = self._measure(lc, fr)
+            pre = dict(fr.env) if lc.step else None
             try:
                 self.ex.exec_block(s.body, fr)
             except _Break:
@@ -250,12 +267,17 @@ class Loops:
                 pass
             for g, upd in lc.ghost_update.items():
                 fr.env[g] = self.eval_text(upd, fr)
+            if pre is not None:
+                self._check_step(lc, fr, qn, ordn, pre)
             self._check_invs(lc, fr, qn, ordn, "inv-preserved")
             if m0 is not None:
                 self._prove_decrease(m0, self._measure(lc, fr), qn, ordn)
             raise PathEnd()
         self.st.labels.append(f"loop{ordn}:exit")
         self.st.assume(self.ex.not_(c))
+        for label, text in lc.exit:
+            v = self.eval_text(text, fr)
+            self.st.prove(f"{qn}/loop{ordn}:exit:{label}", self.bm.truth(v), kind="loop-exit", assume_after=False)
         self.ex.exec_block(s.orelse, fr)
 
     def for_with_contract(self, s, fr, it, lc, ordn):
